@@ -53,7 +53,7 @@ if [ $SUITE = 0 ] && [ $WITH != 0 ] && [ $WITHOUT = 0 ]; then
   python3 - "$SID" "$PROP" "$DEMOS" <<'PY'
 import json,sys
 sid,prop,demos=sys.argv[1:4]
-json.dump({"seed":sid,"property":prop,"base_commit":"fd50dac6","demo_files":demos.split(),
+json.dump({"seed":sid,"property":prop,"base_commit":"56f77c32","demo_files":demos.split(),
  "confirmed":{"build":"go build ./... ok","suite_with_change":"go test -vet=off -count=1 ./... exit 0 (demo moved aside)","demo_with_change":"go test -run TestSeededDemo: FAIL","demo_without_change":"go test -run TestSeededDemo: ok"},
  "needs_to_manifest":"see notes.md","detected_by":"(filled in after running the checks)"},
  open(f"/verif/seeded/{sid}/meta.json","w"),indent=1)
